@@ -263,6 +263,7 @@ def slice_first(eng, st, site, func, target, args, dty):
     if s is None:
         return None
     out = []
+    st.emit(("first", s.base, site_info(site)))
     s0 = st.fork()
     if eng.add(s0, c_eq(s.len, Lin.const(0))):
         out.append((s0, mk_option(eng, dty, False)))
@@ -768,6 +769,11 @@ def total_opaque(eng, st, site, func, target, args, dty):
         return [(st, args[0])]
     if nm.startswith("std::io::"):
         st.emit(("io", nm, site_info(site)))
+    if "Formatter" in nm and ("write_str" in nm or "write_fmt" in nm):
+        lit = None
+        if len(args) > 1 and isinstance(args[1], VSlice) and isinstance(args[1].base, tuple) and args[1].base[0] == "const":
+            lit = bytes(args[1].base[1]).decode("utf8", "replace")
+        st.emit(("fmt", nm.rsplit("::", 1)[1], lit, site_info(site)))
     if dty is not None:
         t = eng.T(dty)
         if t["k"] == "tuple" and not t["of"]:
